@@ -166,7 +166,8 @@ def g_new(rng, cs, malformed):
             a["nums"]["data"] = a["nums"]["data"] + [0]
             a["nums"]["shape"] = [n + 1]
     if a["nums"] is not None:
-        a["nums"]["alias"] = rng.chance(1, 8) and a["nums"]["kind"] in ("list", "numpy", "pandas")
+        # (item_num=[] is a float array for NumPy and is refused as "not integers"; not generated)
+        a["nums"]["alias"] = rng.chance(1, 8) and a["nums"]["kind"] in ("list", "numpy", "pandas") and (n > 0 or a["nums"]["kind"] == "numpy")
     if form == "none":
         n = 0
     sc = rng.weighted([("none", 3), ("arr", 4), ("scalar", 1), ("alias", 1)])
@@ -180,6 +181,10 @@ def g_new(rng, cs, malformed):
         a["scores"] = g_arr(rng, n, dtype="f8")
         a["fields"] = [[0, g_arr(rng, n, dtype="f8")]]
     names = rng.subset([2, 3, 4], 2, 5)
+    if rng.chance(1, 4) and bad is None:
+        names = []
+        if sc != "alias" and rng.chance(2, 3):
+            a["scores"] = None
     if bad in ("len", "2d", "0d", "allnull") and not names:
         names = [rng.choice([2, 3, 4])]
     a["fields"] += g_fields(rng, n, names, bad if bad in ("len", "2d", "0d", "allnull") else None)
@@ -213,7 +218,7 @@ def g_copy(rng, cs, k, src, malformed):
         what.remove(rng.choice(["ids", "nums"]))
     n2 = n
     if "ids" in what:
-        if (not src["fields"] and "nums" not in what and rng.chance(1, 2)) or bad == "idslen":
+        if (not src["fields"] and "nums" not in what and rng.chance(2, 3)) or bad == "idslen":
             n2 = max(0, n + rng.choice([-2, -1, 1, 2]))
         ids = g_ids(rng, terms, n2)
         a["ids"] = g_idarr(rng, ids, cs["idtype"])
@@ -306,6 +311,7 @@ def gen_case(rng, malformed=False):
                        "kind": rng.choice(["list", "numpy", "index", "series"] + (["arrow"] if idtype == "int" else []))})
     cs = {"idtype": idtype, "vocabs": vocabs, "ops": [], "style": "malformed" if malformed else "valid"}
     live = []
+    last = None
     nops = rng.randint(3, 12)
     for step in range(nops):
         bad_here = malformed and rng.chance(1, 4)
@@ -313,6 +319,8 @@ def gen_case(rng, malformed=False):
             o, tr = g_new(rng, cs, malformed and bool(live) and rng.chance(1, 2))
         else:
             k = rng.below(len(live))
+            if last is not None and last < len(live) and rng.chance(1, 2):
+                k = last           # follow up on the list the previous step created or read (cache-sensitive sequences)
             src = live[k]
             t = rng.weighted([("copy", 5), ("sub", 6), ("ids", 2), ("nums", 3), ("ranks", 1), ("alt", 2), ("clone", 1), ("df", 2), ("arrow", 2)])
             tr = None
@@ -339,13 +347,15 @@ def gen_case(rng, malformed=False):
                 if (wi or wn) and not (t == "arrow" and src["n"] == 0):
                     tr = dict(src, fields=set(src["fields"]))
         cs["ops"].append(o)
+        last = o.get("k") if o["op"] in ("ids", "nums", "ranks", "alt") else None
         if tr is not None:
             live.append(tr)
+            last = len(live) - 1
     return cs
 
 
 def gen_cases(rng, tier):
-    n = 420 if tier == "quick" else 6000
+    n = 1200 if tier == "quick" else 10000
     return [gen_case(rng.fork(k), malformed=(k % 5 == 4)) for k in range(n)]
 
 
@@ -386,7 +396,7 @@ def _container(vals, kind, shape, npdtype, patype=None):
     if kind == "list":
         return arr.tolist()
     if kind == "torch":
-        return torch.from_numpy(np.ascontiguousarray(arr))
+        return torch.from_numpy(arr.copy())          # (ascontiguousarray would turn a 0-d array into a 1-d one)
     if kind == "pandas":
         return pd.Series(arr, index=np.arange(len(arr)) + 3)
     if kind == "arrow":
@@ -852,6 +862,8 @@ def _check_list(case, o, v, tag):
 def _sigma(n, s):
     t = s["t"]
     if t == "mask":
+        if not s["m"]:
+            return []            # NumPy accepts an empty Boolean index on any array: nothing is selected
         return [i for i, b in enumerate(s["m"]) if b] if len(s["m"]) == n else None
     if t == "idx":
         return [i % n for i in s["ix"]] if all(-n <= i < n for i in s["ix"]) else None
@@ -880,8 +892,32 @@ def _isnull(x):
     return x["kind"] == "arrow" and all(d == "N" for d in x["data"])
 
 
+def _obligation_broken(case, obs):
+    """The caller obligations under which the property is stated (ASSUMPTIONS): identifiers and numbers given
+    together -- or a vocabulary attached to a list that was built from both without one -- agree with the
+    vocabulary.  The generator only tracks list lengths approximately, so a few cases break them; those are
+    outside the property's input domain (the model is still compared on them)."""
+    for o, s in zip(case["ops"], obs["steps"]):
+        if o["op"] not in ("new", "copy") or s["out"] is not None:
+            continue
+        a, src = o["args"], s["src"]
+        ev = a["vocab"] if a["vocab"] is not None else (src["vocab"] if src else None)
+        if ev is None or ev < 0:
+            continue
+        terms = case["vocabs"][ev]["terms"]
+        if a["ids"] is not None and a["nums"] is not None:
+            if a["nums"]["data"] != [vnum(terms, i) for i in a["ids"]["data"]]:
+                return f"step {case['ops'].index(o)}: identifiers and numbers given together disagree with vocabulary {ev}"
+        if (src is not None and a["ids"] is None and a["nums"] is None and a["vocab"] is not None and src["vocab"] is None
+                and _ok(src["ids"]) and _ok(src["neg"]) and src["neg"] != [vnum(terms, i) for i in src["ids"]]):
+            return "a vocabulary was attached to a list whose given identifiers and numbers disagree with it"
+    return None
+
+
 def oracle(case, obs):
     v = []
+    if _obligation_broken(case, obs):
+        return v
     for m in obs["fmt_bad"]:
         v.append(("format-conversion", m))
     for si, (o, s) in enumerate(zip(case["ops"], obs["steps"])):
@@ -905,11 +941,13 @@ def oracle(case, obs):
                 if a["nums"] is not None and (a["ids"] is not None or src is not None):
                     arrays.append(("item_nums", a["nums"]))
                 wrong = [nm for nm, x in arrays if x["shape"] != [n]]
-                if op == "copy" and src is not None and n != src["len"] and any(
-                        f is not None and all(FLABEL[FNAMES[j]] != FLABEL[g] or x is False for g, x in a["fields"])
-                        and not (FNAMES[j] == 0 and a["scores"] is not None)
-                        for j, f in enumerate(src["fields"])):
-                    wrong.append("inherited field")
+                if op == "copy" and src is not None and n != src["len"]:
+                    given = {g for g, _ in a["fields"]}
+                    for j, vals in enumerate(src["fields"]):
+                        f = FNAMES[j]
+                        kept = vals is not None and f not in given and not (f == 0 and a["scores"] is not None)
+                        if kept:
+                            wrong.append("inherited " + FLABEL[f])
                 if wrong and s["out"] != "EType" and s["out"] != "EValue":
                     v.append(("bad-shape-accepted", f"step {si}: {wrong} do not have shape [{n}] but the constructor returned {s['out']}"))
                 if not wrong and o.get("bad") is None and s["out"] is not None and not (
@@ -995,6 +1033,8 @@ def oracle(case, obs):
 
 
 def nontrivial(case, obs):
+    if _obligation_broken(case, obs):
+        return False
     st = list(zip(case["ops"], obs["steps"]))
     sub = any(o["op"] == "sub" and s["out"] is None for o, s in st)
     der = any(o["op"] in ("copy", "clone", "df", "arrow") and s["out"] is None for o, s in st)
@@ -1003,6 +1043,8 @@ def nontrivial(case, obs):
 
 
 def counters(case, obs):
+    if _obligation_broken(case, obs):
+        yield "outside-input-domain(caller-obligation-broken)"
     yield "style=" + case["style"]
     yield "idtype=" + case["idtype"]
     yield f"ops={len(case['ops'])}"
